@@ -304,7 +304,6 @@ class Voc:
             FA([d, k], z3.Implies(self.dhas(d, k), z3.And(0 <= self.sidx(self.dkeys(d), k), self.sidx(self.dkeys(d), k) < self.dlen(d),
                                                           self.sat(self.dkeys(d), self.sidx(self.dkeys(d), k)) == k)),
                patterns=[self.dhas(d, k)]),
-            FA([d, k], self.shas(self.dkeys(d), k) == self.dhas(d, k), patterns=[self.shas(self.dkeys(d), k)]),
             # keys are pairwise distinct
             FA([d, i, j], z3.Implies(z3.And(0 <= i, i < j, j < self.dlen(d)), self.sat(self.dkeys(d), i) != self.sat(self.dkeys(d), j)),
                patterns=[z3.MultiPattern(self.sat(self.dkeys(d), i), self.sat(self.dkeys(d), j))]),
